@@ -131,13 +131,38 @@ package socks5
 //@ // WriteToUDP only if no filter is installed or the filter was asked about exactly this
 //@ // destination, after it was resolved, and answered yes (C12).
 //@ func runUDPAssociateLoop__closure1()
-//@   property C12
+//@   property C12 C18
 //@   mode int
 //@   partial
 //@   posts_only
 //@   noframe
 //@   may_panic
-//@   assert_call UDPConn.WriteToUDP: allow == nil || (ghost(fvres) == 1 && ghost(fvarg) == mathint(arg1) && mathint(arg1) == mathint(dstAddr))
+//@   assert_call UDPConn.WriteToUDP: [C12] allow == nil || (ghost(fvres) == 1 && ghost(fvarg) == mathint(arg1) && mathint(arg1) == mathint(dstAddr))
+//@   // the header a destination was addressed with is remembered under that destination's full
+//@   // address (host, port, zone), which is what a reply from it is looked up by (C18)
+//@   assume_call UDPAddr.String: result0 == udpKey(recv)
+//@   assert_call Map.Store: [C18] typeof(arg0) == typeid(string) && payload(arg0, string) == udpKey(dstAddr) && typeof(arg1) == typeid([]byte) && payload(arg1, []byte) == datagram.Header
+//@   // what is sent to the destination is the payload of exactly this datagram (C18)
+//@   assert_call UDPConn.WriteToUDP: [C18] arg0 == datagram.Payload
+//@   loop 1:
+//@     invariant true
+//@
+//@ // Replies (C18): the header put in front of a reply is the one remembered for exactly the
+//@ // replying address, or one freshly built for that address (and remembered for it).
+//@ func runUDPAssociateLoop__closure2()
+//@   property C18
+//@   mode int
+//@   partial
+//@   posts_only
+//@   noframe
+//@   may_panic
+//@   assume_call UDPAddr.String: result0 == udpKey(recv)
+//@   ghost_call udpAddrToHeader: ghost(hdrfor) = mathint(arg0)
+//@   assert_call Map.Load: [C18] typeof(arg0) == typeid(string) && payload(arg0, string) == udpKey(addr)
+//@   assert_call Map.Store: [C18] typeof(arg0) == typeid(string) && payload(arg0, string) == udpKey(addr) && ghost(hdrfor) == mathint(addr) && typeof(arg1) == typeid([]byte) && payload(arg1, []byte) == header
+//@   // what is written to the tunnel for a reply is that header followed by exactly the n bytes
+//@   // of the datagram: one reply, one tunnel datagram, nothing merged or cut (C18)
+//@   assert_call PacketOverStreamTunnel.Write: [C18] len(arg0) == len(header) + n && forall(i, 0, len(header), arg0[i] == header[i]) && forall(j, 0, n, arg0[len(header) + j] == buf[j])
 //@   loop 1:
 //@     invariant true
 //@
